@@ -18,6 +18,7 @@ import itertools
 import random
 import sys
 import threading
+import weakref
 import time
 from collections import Counter
 
@@ -188,6 +189,7 @@ def cur_token():
         tok = _SUPERSEDED[tok]._twz_tok
     if tok is None:
         pool = getattr(TLS, "pool", None)
+        pool = pool() if pool is not None else None  # weak: a worker must not keep its (possibly abandoned) pool alive
         if pool is None:
             pool = SCHED_POOL_BY_THREAD.get(threading.get_ident())
             if pool is not None and not getattr(pool, "_twz_reused", False):
@@ -295,14 +297,16 @@ class Pool(_RealPool):
         REACH["POOL_NEW"] += 1
         ev("POOL_NEW", token=tok, max_workers=max_workers)
 
-        pool = self
+        pool = weakref.ref(self)
         self._twz_epoch = (threading.get_ident(), EPOCH_BY_THREAD.get(threading.get_ident(), 0))
         self._twz_max_workers = max_workers
         SCHED_POOL_BY_THREAD[threading.get_ident()] = self
 
         def init():
             TLS.pool = pool
-            ev("WORKER", token=pool._twz_tok)
+            p = pool()
+            ev("WORKER", token=p._twz_tok if p is not None else tok)
+            del p
             if initializer is not None:
                 initializer(*initargs)
 
